@@ -214,6 +214,7 @@ def run(ctx):
     c06.check_formulas(sub, fbd)
     c06.check_recompute(sub, fbd)
     c06.check_complete_writes(sub, fbd)
+    c06.check_values(sub, fbd)
     c06.check_delegation(sub, fbd)
     c06.check_subtree_root(sub, fbd)
     for r in sub.results:
